@@ -35,7 +35,9 @@ def kappa(name, J) -> float:
     if name == "IMTLG":
         sv = M.singular_values(J @ J.T)
     else:
-        sv = M.singular_values(M.unit_rows(J))
+        U = M.unit_rows(J)
+        U = U[np.linalg.norm(U, axis=1) > 0]  # (an all-zero row is its own unit row: an exact zero singular value, nothing ambiguous)
+        sv = M.singular_values(U) if U.shape[0] else np.zeros(0)
     if sv.size == 0 or sv[-1] == 0:
         return float("inf")
     return float(sv[0] / sv[-1])
@@ -134,10 +136,11 @@ def guard(desc, J: np.ndarray, dname: str, orders=None):
             return "imtlg_weight_sum_near_zero"
         return None
     if name == "ConFIG":
-        if (np.linalg.norm(J, axis=1) == 0).any():
-            return "config_zero_row"
+        # all-zero rows (an objective whose gradient vanishes) are their own unit rows: they add exact zero singular values, which
+        # are far below pinv's cut-off; the conditioning is that of the non-zero rows
+        nz = np.linalg.norm(J, axis=1) > 0
         U = M.unit_rows(J)
-        svU = M.singular_values(U)  # min(m, n) singular values of the unit rows: all must be clear of pinv's cut-off
+        svU = M.singular_values(U[nz])  # singular values of the non-zero unit rows: all must be clear of pinv's cut-off
         if svU[-1] < svU[0] / COND_MAX[dname]:
             return "config_rank_ambiguous"
         w = np.ones(m) if desc.get("pref") is None else np.array(desc["pref"])
